@@ -24,7 +24,7 @@ PROPS["C18"] = {
              "shared transcript}, yield points and GOMAXPROCS from the case; non-trivial = at least two goroutines touch the same shared instance "
              "(expanded key, cache verifier, signing context, base transcript, explicit basepoint-table op). "
              "(b) history = capacity, key universe, prefill, 2..4 goroutines x 3..8 Get/Put with one fresh value pointer per Put; each case is "
-             "repeated 150 times in the child (evaluations = histories checked + quiescent invariant checks); non-trivial = some repetition had "
+             "repeated 150 times (600 times without race instrumentation) in the child (evaluations = histories checked + quiescent invariant checks); non-trivial = some repetition had "
              ">= 1 eviction along the linearization found and >= 1 pair of calls of different goroutines with intersecting [call,return] stamps; "
              "distinct = FNV-64 of the serialised case"),
     "assumptions": ["the Go race detector reports every data race it observes in an executed interleaving (no false positives)",
@@ -37,8 +37,8 @@ PROPS["C18"] = {
         "pkg": "primitives/ed25519/extra/cache", "configs": {"quick": ["race", "default"], "thorough": ["race", "race-purego", "default"]},
         "tests": {
             "TestC18ModelSelf": LIST(configs=["race"]),
-            "TestC18History": T(400, 20000, shards={"quick": 8, "thorough": 16}, shrinktime="15s"),
-            "TestC18Workload": T(400, 20000, shards={"quick": 8, "thorough": 16}, shrinktime="15s"),
+            "TestC18History": T(400, 8000, shards={"quick": 8, "thorough": 16}, shrinktime="15s"),
+            "TestC18Workload": T(400, 8000, shards={"quick": 8, "thorough": 16}, shrinktime="15s"),
         },
     }],
 }
